@@ -8,8 +8,8 @@ CFG = {
                   "From DSR Require Import Run_C07.\nOpen Scope N_scope.",
     "case_type": "c07case",
     "judge": "judge",
-    "rule": "A live HttpServer serves a compiled-in family of 84 operations: Path<{v:T}> and Query<{v:T, o:Option<T>, "
-            "#[serde(default)] d:T}> for T in String, u8..u64, i8..i64, bool, char, a unit enum with renamed variants; "
+    "rule": "A live HttpServer serves a compiled-in family of 86 operations: Path<{v:T}> and Query<{v:T, o:Option<T>, "
+            "#[serde(default)] d:T}> for T in String, u8..u64, i8..i64, bool, char, uuid::Uuid, a unit enum with renamed variants; "
             "mixed query structs (renames, doc comments, Option / default of every kind, nothing required); "
             "#[serde(flatten)] one and two levels deep with string/char/enum leaves and with integer/bool leaves, in "
             "Query and in Path; a multi-variable path; TypedBody JSON (struct with every scalar, Option, default, "
@@ -62,7 +62,8 @@ CFG = {
         "(spec evaluated in Coq on the real body), not proved; it rests on C08 (published schema = the type's own "
         "schema) and the same schemars/serde agreement",
         "the semantics SchemaSem.v (C08) with `format` read as: int8..int64 / uint8..uint64 bound the value to the "
-        "range their names say (the document carries no maximum for them), every other format is an annotation; "
+        "range their names say (the document carries no maximum for them), uuid is the RFC 4122 text form "
+        "(8-4-4-4-12 hexadecimal digits, either case), every other format is an annotation; "
         "cross-checked (formats ignored) against the independent Python jsonschema validator by tools/c07_xcheck.py "
         "(not part of ./check)",
         "a parameter value is written as OpenAPI style simple / form writes a primitive (the text of a string, "
@@ -98,7 +99,7 @@ CFG = {
                 "Option<T> with T referenceable is published as {allOf: [$ref], nullable: true}, valid for null (K7b, "
                 "repaired in /repo by 16fe29f). Relative to: schemars' and serde's "
                 "derives agreeing with their transcriptions. Correspondence on every run: the real document replayed "
-                "against a live server over 84 operations, requests built from the document alone, spec and model "
+                "against a live server over 86 operations, requests built from the document alone, spec and model "
                 "evaluated in Coq on every answer (body validity by valid_oas on the real JSON), the document "
                 "compared structurally with the model, schema2struct compared on seeded schemas.",
         "design_ref": "DESIGN.md §6 C07",
